@@ -67,6 +67,11 @@ theorem layout_blank_at_start (c : Cfg) (blank : List Ws) (hb : ∀ w ∈ blank,
     simp only []
     cases go c none st2 post <;> simp
 
+/-- CRLF line ends: turning any set of `"\n"` into `"\r\n"` (or back) - the whole file, or any part of it - leaves the token stream
+    unchanged (line-break pieces outside tokens; the `\r` is part of `_NEWLINE: (/\r?\n[\t ]*/)+`). -/
+theorem layout_crlf (c : Cfg) (f : Bool → Bool) (ps : List Piece) : layout c (ps.map (setCR f)) = layout c ps :=
+  go_setCR c f ps none St.init
+
 /-- Trailing whitespace: blanks the lexer ignores (`%ignore`), appended to any line, change nothing. -/
 theorem layout_trailing (c : Cfg) (pre post : List Piece) (cr : Bool) (trail : List Ws)
     (ht : ∀ w ∈ trail, c.ign w = true) :
@@ -404,6 +409,19 @@ open NemoVerif.NumberedLines in
 example : (∃ st' out, runPre NumberedLines.St.init (splitNL ['d', 'e', 'f', ' ', 'a', '\n', ' ', ' ', 'u', ' ', 'h']) = .ok (st', out) ∧ st'.atBoundary = true) ∧
     isOpener (strip [' ', ' ', 'u', ' ', 'h']) = false := by
   refine ⟨⟨_, _, rfl, ?_⟩, ?_⟩ <;> decide
+
+open NemoVerif.NumberedLines in
+/-- Colang 1.0: CRLF line ends (a `"\r"` after every line, except after the first line of a multi-line string) change no record. -/
+theorem numbered_lines_crlf (ls : List Str) : numbered (ls.map addCR) = numbered ls := by
+  apply numbered_lines_trailing_some
+  apply pointwise_map
+  intro l
+  unfold addCR
+  by_cases h : isOpener (strip l) = true
+  · simp [h]
+  · right
+    refine ⟨['\r'], by decide, by simp [h], by simpa using h⟩
+
 
 open NemoVerif.NumberedLines in
 /-- kernel-checked witness (finite fact) that the exclusion above is needed: trailing blanks on the first line of a
